@@ -119,6 +119,13 @@ theorem C14_first_value_only (setting : Str) (md md' : MD) (hw : mdWF md = true)
   rw [temporaryEvaluate_closed setting md hw, temporaryEvaluate_closed setting md' hw']
   simp [identityPresent, callerGroups, h1, h2, h3]
 
+/-- The metadata view: behind `FromIncomingContext` a key is read under its lower-cased form
+    whatever its case on arrival — `Groups: x` and `groups: x` are the same caller group list. -/
+theorem C14_metadata_keys_case_insensitive (raw : MD) (key : Str)
+    (hnd : (raw.map (fun kv => toLower kv.1)).Nodup) :
+    mdLookup (fromIncoming raw) key = (raw.find? (fun kv => decide (toLower kv.1 = key))).map (·.2) :=
+  mdLookup_fromIncoming raw key hnd
+
 /-! ### the check inside `Set` -/
 
 /-- A refused `Set` logs nothing: the status is `Unauthenticated`, no transaction is appended and
@@ -255,9 +262,14 @@ example : isAdminGroup sampleSetting "EnterpriseAdmin".toList = true := by decid
 example : mdWF sampleLookalike = true ∧ identityPresent sampleLookalike = true ∧
     (callerGroups sampleLookalike).all (fun g => !isAdminGroup sampleSetting g) = true := by decide
 example : temporaryEvaluate sampleSetting sampleLookalike = .ok (.refuse (some Code.unauthenticated)) := by decide
+example : temporaryEvaluate "AetherROCAdmin".toList [(kName, ["eve".toList]), (kGroups, ["Admin".toList])] =
+    .ok (.refuse (some Code.unauthenticated)) :=
+  C14_lookalike_refused "AetherROCAdmin".toList "Admin".toList _ (by decide) (by decide) (by decide) (by decide) rfl (by decide)
 example : mdWF sampleNoGroups = true ∧ identityPresent sampleNoGroups = true ∧
     firstValue sampleNoGroups kGroups = [] := by decide
 example : identityPresent [("x-trace".toList, ["1".toList])] = false := by decide
+example : ([("Name".toList, ["bob".toList]), ("GROUPS".toList, ["ops".toList])].map (fun kv => toLower kv.1)).Nodup ∧
+    callerGroups (fromIncoming [("Name".toList, ["bob".toList]), ("GROUPS".toList, ["ops".toList])]) = ["ops".toList] := by decide
 example : setHandler sampleSetting sampleLookalike (fun _ => ⟨4, 1⟩) =
     .ok { outcome := .refused (some Code.unauthenticated), serverCalls := 0, appended := 0 } := by decide
 example : mdLookup [("authorization".toList, ["bearer x".toList])] kGroups = none := by decide
